@@ -38,11 +38,13 @@ func loadKnownFindings() []KnownFinding {
 
 // propertyPlan describes what a property check verifies.
 type propertyPlan struct {
-	ID      string
-	Level   string // proof | other
-	Pkgs    []string
-	Extra   func(s *Session, tier string) []*FuncResult // structural / generated-code checks
-	Explain string
+	GenToolsOnly bool // only the freshly built tools are needed, not the regenerated overlay
+	Gen          bool // needs regenerated code (plugin run on the repository's descriptors)
+	ID           string
+	Level        string // proof | other
+	Pkgs         []string
+	Extra        func(s *Session, tier string) []*FuncResult // structural / generated-code checks
+	Explain      string
 }
 
 func hasProp(props []string, id string) bool {
@@ -79,6 +81,9 @@ func cmdCheck(args []string) int {
 	seed, _ := strconv.Atoi(envOr("VERIF_SEED", "0"))
 	return RunCheck(id, tier, seed)
 }
+
+// curGen is the regenerated-code context of the running check (nil for most properties).
+var curGen *genCtx
 
 type sample struct {
 	Obligation string `json:"obligation"`
@@ -121,10 +126,40 @@ func runCheck(id, tier string, seed int, overlay map[string][]byte, quiet bool) 
 	if tier == "thorough" {
 		timeout = 60000
 	}
-	s, err := NewSession(plan.Pkgs, timeout, seed, tier == "thorough", overlay)
+	var gen *genCtx
+	pkgs := plan.Pkgs
+	var extraSpecs []string
+	if plan.Gen {
+		var gerr error
+		gen, gerr = PrepareGen(id)
+		defer gen.Close()
+		if gerr == nil && gen != nil && !plan.GenToolsOnly {
+			if overlay == nil {
+				overlay = map[string][]byte{}
+			}
+			for k, v := range gen.Overlay {
+				if _, mutated := overlay[k]; !mutated {
+					overlay[k] = v
+				}
+			}
+			if len(gen.Pkgs) > 0 && len(pkgs) == 0 {
+				pkgs = gen.Pkgs
+			}
+			if gen.Spec != "" {
+				extraSpecs = append(extraSpecs, gen.Spec)
+			}
+		}
+	}
+	curGen = gen
+	ExtraSpecFiles = extraSpecs
+	s, err := NewSession(pkgs, timeout, seed, tier == "thorough", overlay)
+	ExtraSpecFiles = nil
 	replayDir := filepath.Join(VerifDir, "out", "replay", id)
 	if quiet {
 		replayDir = filepath.Join(os.TempDir(), "gvc-selftest-replay", id)
+	}
+	if !quiet {
+		os.RemoveAll(replayDir) // replay files describe this run only
 	}
 	os.MkdirAll(replayDir, 0o755)
 	os.MkdirAll(filepath.Join(VerifDir, "evidence"), 0o755)
@@ -153,6 +188,9 @@ func runCheck(id, tier string, seed int, overlay map[string][]byte, quiet bool) 
 	}
 	results := s.VerifyNamed(names)
 	results = append(results, s.VerifyLemmas(func(l *Lemma) bool { return tagsHaveProp(l.Tags, id) })...)
+	if gen != nil && !plan.GenToolsOnly {
+		results = append(results, gen.Results...)
+	}
 	if plan.Extra != nil {
 		results = append(results, plan.Extra(s, tier)...)
 	}
